@@ -67,7 +67,8 @@ let tval_str (dd : string) (v : Model.tval) : string =
 let tval_desc (dd : string) (v : Model.tval) : string =
   match (dd, v) with
   | "zbdd", Model.TNum z -> if Z.equal (z_of_mz z) Z.zero then "E" else "B"
-  | ("bdd" | "bcdd"), Model.TNum _ -> "T"
+  | "bdd", Model.TNum z -> if Z.equal (z_of_mz z) Z.zero then "F" else "T"
+  | "bcdd", Model.TNum _ -> "T"
   | _ -> tval_str dd v
 
 (* Boolean tables: hex nibbles, bit j of nibble k = index 4k+j *)
@@ -432,7 +433,7 @@ let check_export dd nv (names : string option array) (tables : string array list
     (match model_import k file off (List.length dump.dnodes) slm nv with
     | Error e -> corr "model importer rejects the exporter's file: %s" e
     | Ok (st, roots) ->
-      if dd <> "bdd" then check_iso dd st.Model.st_store roots dump;
+      check_iso dd st.Model.st_store roots dump;
       let vars = Array.init nv (fun v -> v) in
       List.iteri
         (fun j r ->
